@@ -2,7 +2,7 @@
 (render.rs TerminalRenderer::{new,clear,frame}, terminal.rs Terminal::run_render)."""
 import re
 from ..mir import call_matches, callee_name, op_local, op_const_int, place_str
-from ..flow import resolve_place, arg_place, origins, value_variants, ok_return_blocks, err_return_blocks, feasible_reach
+from ..flow import resolve_place, arg_place, origins, value_variants, ok_return_blocks, err_return_blocks, feasible_reach, expr
 
 CLAIM = {
     "text": "Static necessary conditions of the diffing protocol decided on MIR for every path of TerminalRenderer::{new,clear,frame} and "
@@ -475,6 +475,67 @@ def run(ctx):
             if not ok:
                 ctx.violation("R6-RECONCILE", frame.path, "test-without-%s" % cmdname, "the %s difference test does not lead to emitting %s" % (cmdname, cmdname), sites=["%s:%d" % (frame.file, t["line"])])
 
+
+    # ---------------- R7 erase/space runs never swallow Ignored cells ------------------------------------------
+    ctx.rule("R7-RUN", "second pass run-length scan: a cell is added to a blank run only if its mark was compared with Ignored", floor=1)
+    ign_tests = []
+    for bb, t in frame.calls():
+        if call_matches(t, r"PartialEq.*::(eq|ne)$") and any(IGNORED in value_variants(frame, a) for a in t["args"]):
+            e = bool_edges(frame, bb, t)
+            if e:
+                is_ne = callee_name(t).endswith("::ne")
+                ign_tests.append({"bb": bb, "sw": e[2], "not_ignored": e[0] if is_ne else e[1], "line": t["line"]})
+    n_run = 0
+    for (bb, t, both_front, srcs) in eqs:
+        if not both_front:
+            continue
+        n_run += 1
+        inner = _inner_loop(loops, bb)
+        e = bool_edges(frame, bb, t)
+        incs = []
+        for i2, si2, s2 in frame.assigns():
+            if inner is not None and i2 in loops[inner] and s2["rv"]["k"] == "bin" and s2["rv"]["op"] == "AddWithOverflow" and op_const_int(s2["rv"]["b"]) == 1:
+                incs.append((i2, s2))
+        ok = bool(e) and bool(incs)
+        why = "run counter increment not found"
+        for i2, s2 in incs:
+            g1 = fcfg.edge_dominates(e[2], e[0], i2)
+            g2 = any(fcfg.edge_dominates(it["sw"], it["not_ignored"], i2) for it in ign_tests if inner is None or it["bb"] in loops[inner])
+            if not (g1 and g2):
+                ok = False
+                why = "the run counter is incremented (line %d) without %s" % (s2["line"], "the equal-cell test" if not g1 else "a `mark != Ignored` test of the next cell")
+        ctx.instance("R7-RUN", {"scan_eq_line": t["line"], "increments": [s2["line"] for i2, s2 in incs], "guarded_by_equal_and_not_ignored": ok})
+        if not ok:
+            ctx.violation("R7-RUN", frame.path, "run-includes-ignored", "blank-run coalescing: %s; EraseChars/spaces would overwrite cells under an image that is kept" % why, sites=["%s:%d" % (frame.file, t["line"])])
+    if n_run == 0:
+        ctx.anchor("R7-RUN", "run-length-scan")
+
+    # ---------------- R8 equality used by the diff is complete ----------------------------------------------------
+    ctx.rule("R8-EQ", "hand-written PartialEq of cell payload types (Image, Glyph) compares every field whole", floor=2)
+    for ty in ("image::Image", "glyph::Glyph"):
+        eqb = [b for b in prog.bodies if b.name == "eq" and b.impl_trait == "std::cmp::PartialEq" and b.impl_self == ty]
+        adt = prog.adts.get(ty)
+        if len(eqb) != 1 or not adt:
+            ctx.anchor("R8-EQ", ty)
+            continue
+        b = eqb[0]
+        fields = [f["name"] for v in adt["variants"] for f in v["fields"]]
+        calls_ = [(callee_name(t), [expr(b, a) for a in t["args"]]) for bb, t in b.calls()]
+        derived = bool(calls_) and all((t.get("expk") or "").startswith("derive") for bb, t in b.calls())
+        missing = []
+        if not derived:
+            for f in fields:
+                hit = any(len(a) == 2 and {a[0], a[1]} == {"arg1." + f, "arg2." + f} for n, a in calls_)
+                for i2, si2, s2 in b.assigns():
+                    if s2["rv"]["k"] == "bin" and s2["rv"]["op"] == "Eq" and {expr(b, s2["rv"]["a"]), expr(b, s2["rv"]["b"])} == {"arg1." + f, "arg2." + f}:
+                        hit = True
+                if not hit:
+                    missing.append(f)
+        ctx.instance("R8-EQ", {"type": ty, "fields": fields, "derived": derived, "compared": [c for c in calls_][:4], "missing": missing})
+        if missing:
+            ctx.violation("R8-EQ", b.path, "field-" + "-".join(missing),
+                          "%s::eq does not compare field(s) %s as a whole: two different cells can compare equal, the renderer then skips them and the terminal keeps the old content" % (ty, missing),
+                          sites=[b.loc])
 
 def _reaches_without(cfg, start, target, removed_block):
     return target in cfg.reachable_from(start, removed={removed_block})
